@@ -159,6 +159,8 @@ class World(object):
         self.dir = dirname
         self.rng_choice = seams.make_rng(seed, "choice")
         self.rng_urandom = seams.make_rng(seed, "urandom" + rng_salt)
+        self.death_at = None
+        self.dead_now = False
         self.keyed_counter = 0
         self.collide_budget = 40
         self.wall_offset = WALL_BASE + float(self.cfg.get("wall_frac", 0.37))
@@ -358,12 +360,24 @@ class World(object):
         if self.dbs.get(db._sim_name) is db:
             del self.dbs[db._sim_name]
 
+    def arm_death(self, k):
+        """the server process dies right before the k-th database call of the next command"""
+        self.death_at = k
+
     def db_point(self, db, op, sql):
         ev = self.cur
+        if self.dead_now:
+            raise seams.SimDeath()
         if ev is not None:
             ev.dbcalls += 1
         self.point_no += 1
         self.count("db_calls")
+        if self.death_at is not None and ev is not None and ev.kind == "send" and ev.dbcalls == self.death_at:
+            self.death_at = None
+            self.dead_now = True
+            self.count("fault_crash_mid_command")
+            ev.notes["died_at"] = [ev.dbcalls, db._sim_name, op]
+            raise seams.SimDeath()
         f = self.fault
         if f is not None and ev is not None:
             if f["when"](ev, db, op, sql, self.point_no):
@@ -561,7 +575,11 @@ class World(object):
             return
         try:
             c.st.protocol.dataReceived(data)
+        except seams.SimDeath:
+            return
         except Exception as e:
+            if self.dead_now:
+                return
             tb = sys.exc_info()[2]
             self.cur.errors.append({"kind": "internal_error", "type": type(e).__name__,
                                     "text": str(e)[:300], "where": repo_frame(tb), "conn": c.id})
@@ -605,6 +623,8 @@ class World(object):
         raise RuntimeError("settle did not converge")
 
     def on_server_write(self, c, data):
+        if self.dead_now:
+            return            # (a dead process writes nothing)
         try:
             evs = c.parser.feed(data)
         except Exception as e:
@@ -732,8 +752,20 @@ class World(object):
                     pos = cut
         else:
             self._deliver(c, data)
-        self._settle()
+        if not self.dead_now:
+            self._settle()
+        if self.death_at is not None:
+            self.death_at = None
+            ev.notes["death_not_reached"] = True
+        if self.dead_now:
+            # the process is gone: its open transaction is rolled back (and its locks released)
+            # before anybody looks at the files
+            self._close_dbs()
         self.end()
+        if self.dead_now:
+            # nothing of the process survives; the files hold what was committed
+            self.dead_now = False
+            self.kill(step=step)
         return ev
 
     def hold(self, cid, msgs):
